@@ -135,6 +135,13 @@ func c10Isolation(c *Chooser, env *Env, defective, faults bool) *Outcome {
 		w.Opts.Oneline = true
 		w.Opts.Format = "{{json .}}"
 	}
+	if w.Opts.Format == "" && c.Weighted("world.stdoutfails", 1, 10) {
+		// the report of the multi-file run cannot be written from some byte on (a closed pipe): with
+		// the default output that is nobody's fatal error, and the diagnostics each file gets - the
+		// returned ones - are still those of the file linted alone (with a healthy writer)
+		w.StdoutFailAt = 1 + c.Int("world.stdoutfailat", 600)
+		o.probe("output_writer_fails_in_multi_run", 1)
+	}
 	if c.Weighted("world.workingdiropt", 1, 6) {
 		// a library caller that passes LinterOptions.WorkingDir while its process runs somewhere
 		// else (another repository of the world, or /): arguments are absolute
@@ -245,6 +252,7 @@ func c10Isolation(c *Chooser, env *Env, defective, faults bool) *Outcome {
 			aw := *w
 			aw.Files = []string{spelled}
 			aw.API = APIFiles
+			aw.StdoutFailAt = 0
 			alone = RunLint(&aw, nil, RunOpts{Canonical: true})
 			o.addRun(alone.K)
 			if len(c10Alone) > 20000 {
